@@ -125,13 +125,35 @@ def run_translators(pid):
     return res
 
 
+def strip_comments(src):
+    """remove (nested) block comments and line comments of a Lean source"""
+    out = []
+    depth = 0
+    i = 0
+    n = len(src)
+    while i < n:
+        if src.startswith('/-', i):
+            depth += 1
+            i += 2
+        elif src.startswith('-/', i) and depth > 0:
+            depth -= 1
+            i += 2
+        elif depth > 0:
+            i += 1
+        elif src.startswith('--', i):
+            while i < n and src[i] != '\n':
+                i += 1
+        else:
+            out.append(src[i])
+            i += 1
+    return ''.join(out)
+
+
 def theorem_names(pid):
     p = os.path.join(LEAN_DIR, 'PV', 'Props', pid + '.lean')
     if not os.path.exists(p):
         return []
-    src = open(p).read()
-    src_nc = re.sub(r'/-.*?-/', '', src, flags=re.S)
-    src_nc = re.sub(r'--.*', '', src_nc)
+    src_nc = strip_comments(open(p).read())
     return re.findall(r'^\s*theorem\s+([A-Za-z0-9_\.\']+)', src_nc, flags=re.M)
 
 
@@ -148,8 +170,7 @@ def grep_forbidden(pid):
                 continue
             if re.search(r'^import PV\.Todo', src, flags=re.M):
                 hits.append('%s imports the staging area PV.Todo' % fn)
-            src = re.sub(r'/-.*?-/', '', src, flags=re.S)
-            src = re.sub(r'--.*', '', src)
+            src = strip_comments(src)
             for m in FORBIDDEN.finditer(src):
                 hits.append('%s: %s' % (os.path.relpath(os.path.join(root, fn), LEAN_DIR), m.group(0).strip()))
     return hits
